@@ -19,7 +19,9 @@ SHAPES = [(), (0,), (1,), (3,), (2, 3), (2, 0)]
 DTYPES = ["float16", "float32", "float64", "int8", "int32", "int64", "bool"]
 GRADS = ["absent", "present", "viewgrad", "noncontig"]
 KINDS = ["leaf", "creator", "view"]
-FILES = ["str_npz", "str_bare", "path", "bytesio", "fileobj"]
+FILES = ["str_npz", "str_bare", "path", "bytesio", "fileobj", "str_dotted", "path_bare", "path_dotted", "str_npz_upper"]
+# path targets: (file name handed to save, as pathlib.Path?) ; the file written must be the one numpy.savez writes for that name
+NAMED = {"str_bare": ("t", False), "str_dotted": ("t.v2", False), "path_bare": ("t", True), "path_dotted": ("run.a", True), "str_npz_upper": ("t.NPZ", False)}
 
 
 def cells(tier):
@@ -104,13 +106,15 @@ def check(cell):
                 p = os.path.join(tmp, "t.npz")
                 mg.save(p, t)
                 loaded = mg.load(p)
-            elif fk == "str_bare":
-                p = os.path.join(tmp, "t")
-                mg.save(p, t)
-                written = [f for f in os.listdir(tmp)]
-                if len(written) != 1:
-                    return ("file", "expected exactly one file, found %r" % written)
-                loaded = mg.load(os.path.join(tmp, written[0]))
+            elif fk in NAMED:
+                name, as_path = NAMED[fk]
+                p = os.path.join(tmp, name)
+                mg.save(pathlib.Path(p) if as_path else p, t)
+                written = sorted(os.listdir(tmp))
+                expect = name if name.endswith(".npz") else name + ".npz"  # numpy.savez's documented rule
+                if written != [expect]:
+                    return ("file", "save(%r) wrote %r, numpy.savez writes %r" % (name, written, [expect]))
+                loaded = mg.load(os.path.join(tmp, expect))
             elif fk == "path":
                 p = pathlib.Path(tmp) / "t.npz"
                 mg.save(p, t)
